@@ -27,6 +27,23 @@ var effectOps = map[string]string{
 	"(*" + modPath + "lib/server/ipdb/clients.Clients).Inject":          "ClientsInject",
 	"(*" + modPath + "lib/server/ipdb/clients.Clients).InjectPermanent": "ClientsInjectPermanent",
 	"time.Now":              "Now",
+	// the client automaton's world (lib/client/dclient)
+	modPath + "lib/client/msgtmpl.Discover":         "TmplDiscover",
+	modPath + "lib/client/msgtmpl.RequestSelecting": "TmplRequestSelecting",
+	modPath + "lib/client/msgtmpl.RequestRenewing":  "TmplRequestRenewing",
+	modPath + "lib/client/msgtmpl.RequestRebinding": "TmplRequestRebinding",
+	"(*" + modPath + "lib/client/dclient.dclient).advanceState":    "AdvanceState",
+	"(*" + modPath + "lib/client/dclient.dclient).runPreCallback":  "PreCallback",
+	"(*" + modPath + "lib/client/dclient.dclient).runPostCallback": "PostCallback",
+	modPath + "lib/client/dclient.hackAbsoluteSleep":               "SleepUntil",
+	modPath + "lib/libif.Unconfigure":                              "Unconfigure",
+	modPath + "lib/libif.Up":                                       "Up",
+	modPath + "lib/libif.SetIface":                                 "SetIface",
+	"(*golang.org/x/time/rate.Limiter).Allow":                      "LimiterAllow",
+	// sockets and the ARP prober (lib/rsocks, lib/arpping seen from lib/server)
+	modPath + "lib/rsocks.GetIPRecvSock":  "OpenIPRecvSock",
+	modPath + "lib/rsocks.GetARPRecvSock": "OpenARPRecvSock",
+	modPath + "lib/arpping.Ping":          "Ping",
 	"(context.Context).Err": "CtxErr",
 }
 
@@ -35,6 +52,12 @@ var effectOps = map[string]string{
 func envOfPkg(path string) string {
 	if strings.HasSuffix(path, "lib/server/ipdb") {
 		return "DbEnv"
+	}
+	if strings.HasSuffix(path, "lib/arpping") {
+		return "ArpEnv"
+	}
+	if strings.HasSuffix(path, "lib/client/dclient") {
+		return "CliEnv"
 	}
 	return "Env"
 }
@@ -47,6 +70,9 @@ var ignorable = map[string]bool{
 	"(*log.Logger).Println":                         true,
 	// locking: the discipline (write lock held for the whole body of every exported *IPDB method) is a
 	// regenerated fact pinned by Expect.lean; the translation is of the body as one atomic step
+	"context.WithCancel":      true,
+	"context.WithTimeout":     true,
+	"context.WithDeadline":    true,
 	"(*sync.RWMutex).Lock":    true,
 	"(*sync.RWMutex).Unlock":  true,
 	"(*sync.RWMutex).RLock":   true,
@@ -63,7 +89,7 @@ func effectOf(f *types.Func) (string, bool) {
 	if f == nil {
 		return "", false
 	}
-	if f.Pkg() != nil && f.Pkg().Path() == curPkgForEffects && strings.HasSuffix(curPkgForEffects, "/clients") {
+	if f.Pkg() != nil && f.Pkg().Path() == curPkgForEffects && (strings.HasSuffix(curPkgForEffects, "/clients") || strings.HasSuffix(curPkgForEffects, "/arpping")) {
 		return "", false
 	}
 	op, ok := effectOps[f.FullName()]
@@ -104,7 +130,10 @@ func (x *X) envDef() string {
 		"Env":   "The world outside the translated server handlers: lease database, ARP prober, socket, clock.",
 		"DbEnv": "The world outside the translated lease database (lib/server/ipdb): the clients table, the clock, the caller's context.",
 	}
-	for _, env := range []string{"Env", "DbEnv"} {
+	doc["ArpEnv"] = "The world outside the translated ARP prober (lib/arpping): the receive socket and the sender goroutine."
+	doc["CliEnv"] = "The world outside the translated client automaton (lib/client/dclient): sockets, the exchange primitive, libif, the prober, callbacks, clock, rate limiter."
+	doc["RunEnv"] = "The world outside the translated receive loop and prober wrapper of lib/server: the receive socket, the handler goroutines it starts, the ARP prober."
+	for _, env := range []string{"Env", "DbEnv", "ArpEnv", "RunEnv", "CliEnv"} {
 		n := 0
 		for _, o := range ops {
 			if o.env == env {
@@ -126,7 +155,14 @@ func (x *X) envDef() string {
 }
 
 // envName: the environment structure of the function being translated.
-func (c *fctx) envName() string { return envOfPkg(c.fi.pkg.PkgPath) }
+func (c *fctx) envName() string {
+	// the receive loop and the prober wrapper of lib/server talk to sockets, not to the lease database:
+	// their own environment keeps the handlers' `Env` unchanged
+	if strings.HasSuffix(c.fi.pkg.PkgPath, "lib/server") && (c.fi.obj.Name() == "Run" || c.fi.obj.Name() == "arpVerify") {
+		return "RunEnv"
+	}
+	return envOfPkg(c.fi.pkg.PkgPath)
+}
 
 func isContext(t types.Type) bool { return t.String() == "context.Context" }
 
@@ -135,23 +171,48 @@ func isContext(t types.Type) bool { return t.String() == "context.Context" }
 func (c *fctx) effectCall(op string, f *types.Func, t *ast.CallExpr) (string, *types.Tuple) {
 	sig := f.Type().(*types.Signature)
 	var args, atys []string
+	c.ptrBacks = nil
+	var ptrTys []string
 	for i, a := range t.Args {
 		pt := sig.Params().At(i).Type()
 		if isContext(pt) {
 			continue
 		}
 		if _, isFn := pt.Underlying().(*types.Signature); isFn {
-			// a callback argument must be `sx.arpVerify(x)`: it is represented by x
 			inner, ok := a.(*ast.CallExpr)
-			if !ok {
-				bad("function-valued argument of %s at %s", op, c.site(t.Pos()))
+			if ok {
+				if g, ok2 := effectOf(calleeFunc(c.info, inner)); ok2 && g == "ArpVerify" {
+					// the callback `sx.arpVerify(x)` is represented by x
+					for _, ia := range inner.Args {
+						args = append(args, c.expr(ia))
+						atys = append(atys, c.x.leanType(c.typeOf(ia), false))
+					}
+					continue
+				}
 			}
-			if g, ok2 := effectOf(calleeFunc(c.info, inner)); !ok2 || g != "ArpVerify" {
-				bad("function-valued argument of %s at %s", op, c.site(t.Pos()))
+			args = append(args, c.funcArg(a))
+			atys = append(atys, c.x.leanType(pt, false))
+			continue
+		}
+		if c.x.kindOf(pt) == kPtrStruct { // a *T argument may be nil
+			switch {
+			case isNil(a):
+				args = append(args, "none")
+			default:
+				if u, ok := a.(*ast.UnaryExpr); ok && u.Op.String() == "&" {
+					args = append(args, "(some "+c.expr(u.X)+")")
+				} else {
+					args = append(args, "(some "+c.expr(a)+")")
+				}
 			}
-			for _, ia := range inner.Args {
-				args = append(args, c.expr(ia))
-				atys = append(atys, c.x.leanType(c.typeOf(ia), false))
+			atys = append(atys, c.x.leanType(pt, true))
+			// the callee may write through the pointer: the environment returns the record as it left it
+			ptrTys = append(ptrTys, c.x.leanType(pt, true))
+			if u, ok := a.(*ast.UnaryExpr); ok && u.Op.String() == "&" {
+				lv := c.lvalue(u.X)
+				c.ptrBacks = append(c.ptrBacks, &lv)
+			} else {
+				c.ptrBacks = append(c.ptrBacks, nil)
 			}
 			continue
 		}
@@ -166,7 +227,7 @@ func (c *fctx) effectCall(op string, f *types.Func, t *ast.CallExpr) (string, *t
 	for i := 0; i < sig.Results().Len(); i++ {
 		rtys = append(rtys, c.x.leanType(sig.Results().At(i).Type(), true))
 	}
-	name := c.x.envUse(c.envName(), op, atys, tupleType(rtys))
+	name := c.x.envUse(c.envName(), op, atys, tupleType(append(rtys, ptrTys...)))
 	c.fi.effectful = true
 	return "(← " + strings.TrimSpace(name+" "+strings.Join(args, " ")) + ")", sig.Results()
 }
@@ -188,4 +249,36 @@ func (c *fctx) arpVerifyCall(outer *ast.CallExpr, inner *ast.CallExpr) string {
 	name := c.x.envUse(c.envName(), "ArpVerifyRun", atys, "Bool")
 	c.fi.effectful = true
 	return "(← " + name + " " + strings.Join(args, " ") + ")"
+}
+
+// funcArg: a function value passed to the environment — a variable holding one, or the partial application
+// `f(x...)` of a translated function that returns a closure.
+func (c *fctx) funcArg(a ast.Expr) string {
+	if id, ok := a.(*ast.Ident); ok {
+		if v, ok := c.info.Uses[id].(*types.Var); ok && c.x.kindOf(v.Type()) == kFunc {
+			return c.varName(v)
+		}
+	}
+	call, ok := a.(*ast.CallExpr)
+	if !ok {
+		bad("function-valued argument at %s", c.site(a.Pos()))
+	}
+	ci := c.x.funcs[calleeFunc(c.info, call)]
+	if ci == nil || !ci.closure || ci.effectful || len(ci.oracles) > 0 || len(ci.mutParams) > 0 {
+		bad("function-valued argument at %s", c.site(a.Pos()))
+	}
+	outer := c.userArgs(ci, call)
+	n := len(ci.params) - len(outer)
+	if ci.fwdCall != nil {
+		n = len(ci.fwd)
+	}
+	var ps []string
+	for i := 0; i < n; i++ {
+		ps = append(ps, fmt.Sprintf("q%d", i+1))
+	}
+	body := "Gen." + ci.lean + " " + strings.Join(append(append([]string{}, outer...), ps...), " ")
+	if !ci.mayFail {
+		body = "pure (" + body + ")"
+	}
+	return "(fun " + strings.Join(ps, " ") + " => " + body + ")"
 }
